@@ -41,6 +41,11 @@ var opaque = 1
 func c() bool            { return opaque > 0 }
 func k() string          { return "k" }
 func ki() int            { return opaque }
+
+var zeroV, oneV = 0, 1
+
+func z() int { return zeroV }
+func o() int { return oneV }
 func source() string     { return "%SRCS%" }
 func sourceInt() int     { return %SRCI% }
 func sourceF() float64   { return %SRCF% }
@@ -115,9 +120,9 @@ var wraps = map[string]string{
 	"sliceToArrayPtr:0":  "b := []byte(source())\n\tp := (*[3]byte)(b)\n\tsink(p[0])",
 	"field:0":            "s := mkS(source())\n\tsink(s.B)",
 	"fieldAddr:0":        "p := mkPS(source())\n\tsink(p.B)",
-	"index:0":            "a := mkArr(source())\n\tsink(a[ki()-1])",
+	"index:0":            "a := mkArr(source())\n\tsink(a[z()])",
 	"index:1":            "a := mkArr(\"q\")\n\tsink(a[sourceInt()%2])",
-	"indexAddr:0":        "s := mkStrs(source())\n\tsink(s[ki()-1])",
+	"indexAddr:0":        "s := mkStrs(source())\n\tsink(s[z()])",
 	"indexAddr:1":        "s := mkStrs(\"q\")\n\tsink(s[sourceInt()%2])",
 	"lookup:0":           "m := mkMap(source())\n\tsink(m[k()])",
 	"lookup:1":           "m := mkMap(\"q\")\n\tsink(m[source()])",
@@ -126,7 +131,7 @@ var wraps = map[string]string{
 	"extract:typeAssert": "a := mkAny(source())\n\ty, ok := a.(string)\n\t_ = ok\n\tsink(y)",
 	"extract:lookup":     "m := mkMap(source())\n\ty, ok := m[k()]\n\t_ = ok\n\tsink(y)",
 	"extract:unop":       "ch := mkCh(source())\n\ty, ok := <-ch\n\t_ = ok\n\tsink(y)",
-	"slice:0":            "x := source()\n\ty := x[ki():]\n\tsink(y)",
+	"slice:0":            "x := source()\n\ty := x[o():]\n\tsink(y)",
 	"builtin:append:0":   "b := []byte(source())\n\ty := append(b, 'a')\n\tsink(y)",
 	"builtin:append:1":   "b := []byte(source())\n\ty := append([]byte(k()), b...)\n\tsink(y)",
 	"builtin:len:0":      "x := source()\n\tsink(len(x))",
@@ -154,6 +159,9 @@ var wraps = map[string]string{
 	"extract:next#2":     "m := map[string]string{source(): k()}\n\tfor kk := range m {\n\t\tsink(kk)\n\t}",
 	"select:0":           "ch := mkCh(source())\n\tselect {\n\tcase v := <-ch:\n\t\tsink(v)\n\t}",
 	"extract:select":     "ch := mkCh(source())\n\tch2 := mkCh(k())\n\tselect {\n\tcase v := <-ch:\n\t\tsink(v)\n\tcase w := <-ch2:\n\t\t_ = w\n\t}",
+	"extract:lookup#2":   "_, m := mkMap2(source())\n\ty, ok := m[k()]\n\t_ = ok\n\tsink(y)",
+	"extract:typeAssert#2": "a := mkAny(source())\n\tvar y string\n\tswitch v := a.(type) {\n\tcase string:\n\t\ty = v\n\t}\n\tsink(y)",
+	"carry#5":            "x := source()\n\ty := k()\n\tn := 0\n\tfor {\n\t\tsink(y)\n\t\ty = id(x)\n\t\tn++\n\t\tif n > 1 {\n\t\t\tbreak\n\t\t}\n\t}",
 	"edge:binding#2":     "h := mkH(source())\n\tsink(h.f())",
 	"edge:arg#2":         "x := source()\n\tsink3(k(), k(), x)",
 	"edge:return#2":      "_, y := id2(k(), source())\n\tsink(y)",
@@ -169,6 +177,7 @@ func (e errT) Error() string { return e.s }
 
 func viaParam(x string) { sink(x) }
 func sink3(a, b, x any)  { sink(x) }
+func mkMap2(b string) (int, map[string]string) { return 0, map[string]string{"k": b} }
 
 type holder struct{ f func() string }
 
@@ -280,7 +289,7 @@ func runSearch(key string) *searchResult {
 		return r
 	}
 	var last *searchResult
-	for _, k := range []string{key, key + "#2", key + "#3", key + "#4"} {
+	for _, k := range []string{key, key + "#2", key + "#3", key + "#4", key + "#5"} {
 		if _, ok := wraps[k]; !ok {
 			continue
 		}
@@ -339,15 +348,100 @@ func sanitizeKey(s string) string {
 
 // sweepWraps runs every template through the native ground truth and the real taint analysis: each
 // listed instruction kind, origin kind and boundary-use kind wrapped between a source and a sink
-// must be reported (thorough tier; VERIF_C08_WRAPS=1 in quick).
+// must be reported (thorough tier; VERIF_C08_WRAPS=1 in quick).  All templates whose sink call is in
+// their own body go into ONE program (one function per template, flows told apart by the line of the
+// sink call); the few that reach the sink through a helper are run one by one.
 func sweepWraps(rep *lib.Report) {
-	var keys []string
-	for k := range wraps {
-		keys = append(keys, k)
+	var keys, single []string
+	for k, body := range wraps {
+		if strings.Contains(body, "sink(") {
+			keys = append(keys, k)
+		} else {
+			single = append(single, k)
+		}
 	}
 	sort.Strings(keys)
-	for _, k := range keys {
-		r := runSearch1(k)
+	sort.Strings(single)
+	results := map[string]*searchResult{}
+	for _, k := range single {
+		results[k] = runSearch1(k)
+	}
+	// the batch
+	var outs [2]map[int]string
+	sinkLine := map[int]int{} // template index -> line of its sink call
+	var reportedLines map[int]bool
+	var program string
+	batchNote := ""
+	for v := 0; v < 2 && batchNote == ""; v++ {
+		s, i, f := "AAA", "111", "1.5"
+		if v == 1 {
+			s, i, f = "BBBBB", "222", "2.5"
+		}
+		var sb strings.Builder
+		sb.WriteString(strings.NewReplacer("%SRCS%", s, "%SRCI%", i, "%SRCF%", f, "%%", "%").Replace(wrapPrelude))
+		sb.WriteString(wrapExtra)
+		sb.WriteString("\nvar cur int\n\nfunc sinkAt(x any) { println(\"T\", cur, fmtAny(x)) }\n")
+		for n, k := range keys {
+			body := strings.ReplaceAll(wraps[k], "sink(", "sinkAt(")
+			fmt.Fprintf(&sb, "\n// %s\nfunc t%d() {\n\t%s\n}\n", k, n, body)
+		}
+		sb.WriteString("\nfunc main() {\n")
+		for n := range keys {
+			fmt.Fprintf(&sb, "\tcur = %d\n\tfunc() {\n\t\tdefer func() { recover() }()\n\t\tt%d()\n\t}()\n", n, n)
+		}
+		sb.WriteString("}\n")
+		src := sb.String()
+		dir := workDir(fmt.Sprintf("wraps_batch_%d", v))
+		lib.WriteProgram(dir, "vwrap", map[string]string{"main.go": src})
+		out, err := lib.GoRun(dir, 60)
+		os.Remove(filepath.Join(dir, "prog.bin"))
+		if err != nil {
+			batchNote = fmt.Sprintf("native run of the batch failed: %v: %s", err, out)
+			break
+		}
+		outs[v] = map[int]string{}
+		for _, l := range strings.Split(out, "\n") {
+			var n int
+			var rest string
+			if c, _ := fmt.Sscanf(l, "T %d %s", &n, &rest); c >= 1 {
+				outs[v][n] += l + ";"
+			}
+		}
+		if v == 0 {
+			program = src
+			cur := -1
+			for ln, l := range strings.Split(src, "\n") {
+				var n int
+				if c, _ := fmt.Sscanf(l, "func t%d() {", &n); c == 1 {
+					cur = n
+				}
+				if cur >= 0 && strings.Contains(l, "sinkAt(") && !strings.HasPrefix(l, "func ") {
+					sinkLine[cur] = ln + 1
+				}
+			}
+			res := taintrun.Run(dir, taintrun.Options{SourceRe: "^source", SinkRe: "^sinkAt$"})
+			if !res.OK() {
+				batchNote = fmt.Sprintf("taint analysis did not run on the batch: %v %s", res.LoadErr, res.Panic)
+				break
+			}
+			reportedLines = map[int]bool{}
+			for _, fl := range res.Flows {
+				reportedLines[fl.SinkLine] = true
+			}
+		}
+	}
+	for n, k := range keys {
+		r := &searchResult{program: "// template " + k + " = function t" + fmt.Sprint(n) + " of\n" + program, note: batchNote}
+		if batchNote == "" {
+			r.nativeDep = outs[0][n] != outs[1][n]
+			r.reported = reportedLines[sinkLine[n]]
+		}
+		results[k] = r
+	}
+	all := append(append([]string{}, keys...), single...)
+	sort.Strings(all)
+	for _, k := range all {
+		r := results[k]
 		rep.Case("wrap|" + k)
 		switch {
 		case r.note != "":
@@ -356,7 +450,12 @@ func sweepWraps(rep *lib.Report) {
 			rep.Count("wraps:no-native-dependence")
 			rep.Notes = append(rep.Notes, "template "+k+": the sink value does not depend on the source natively (template is vacuous)")
 		case !r.reported:
-			rep.Fail("wrap:"+k, fmt.Sprintf("construct %q between a source and a sink: the sink value depends on the source natively, the taint analysis reports nothing", k), []byte(r.program), false)
+			// confirm on the stand-alone program before reporting
+			if one := runSearch1(k); one.nativeDep && !one.reported {
+				rep.Fail("wrap:"+k, fmt.Sprintf("construct %q between a source and a sink: the sink value depends on the source natively, the taint analysis reports nothing", k), []byte(one.program), false)
+			} else {
+				rep.Count("wraps:reported")
+			}
 		default:
 			rep.Count("wraps:reported")
 		}
